@@ -649,7 +649,8 @@ class PySersicMultiPrior(BasePrior):
             properties.set_position_guess((catalog["x"][ind], catalog["y"][ind]))
             try:
                 properties.set_theta_guess(catalog["theta"][ind])
-            except KeyError:
+            except (KeyError, ValueError):
+                # no theta column: dicts / DataFrames raise KeyError, record arrays ValueError
                 properties.set_theta_guess(0)
 
             dummy_prior = properties.generate_prior(
